@@ -1,5 +1,7 @@
 HOOK_COMMITS = ["1ae4f10", "19e3492"]
 ENGINES = [
+    {"name": "netsim", "path": "/verif/harness/netsim", "serves_properties": ["C14", "C15", "C16"],
+     "kind_free_text": "strict kernel-faithful fakes of iptables/ipset (/verif/harness/nf) + packet walker; the real portmapping handler and policy manager run on them"},
     {"name": "galaxysim", "path": "/verif/harness/galaxysim", "serves_properties": ["C12", "C13"],
      "kind_free_text": "the real galaxy CNI request path (handler, network resolution, cniutil, invoke) driving recording fake plugin binaries; "
                        "composition with ipamsim for the IPAM->plugin round trip"},
@@ -61,3 +63,7 @@ TEXTS["C12"] = {"engine": "galaxysim", "design_ref": "DESIGN.md §4 C12", "level
 TEXTS["C13"] = {"engine": "galaxysim", "design_ref": "DESIGN.md §4 C13", "level_note": _E2_NOTE,
     "technique": "property-based testing (rapid): composed round trip IPAM store -> binding annotation -> daemon -> CNI_ARGS -> plugin-side decoder",
     "level_text": "End-to-end round trip through the real producer (galaxy-ipam Bind), the real daemon and the real consumer-side decoder, over generated masks/gateways/VLANs/IP counts."}
+_E3_NOTE = "Trusted: the strict netfilter fakes (rules listed in DESIGN.md §3 E3, iptables half cross-checked against the kernel in a netns), the packet walker, the reference evaluator."
+TEXTS["C14"] = {"engine": "netsim", "design_ref": "DESIGN.md §4 C14", "level_note": _E3_NOTE,
+    "technique": "property-based testing (rapid): inverse and convergence laws over generated port sets and prior NAT tables on a strict iptables fake, bind() probes on real sockets",
+    "level_text": "Inverse (Setup;Clean), convergence (from-anything == from-empty), idempotence and frame laws are checked for every generated port set and prior table; port holding is probed with real sockets."}
